@@ -2,6 +2,7 @@
 """Writes seeded/RESULTS.md from seeded/*/meta.json (confirmation + check runs)."""
 import json, glob, os
 V = os.path.dirname(os.path.dirname(os.path.abspath(__file__)))
+first_missed = set(json.load(open(os.path.join(V, "seeded", "first_missed.json"))))
 rows = []
 for f in sorted(glob.glob(os.path.join(V, "seeded", "*", "meta.json"))):
     d = json.load(open(f)); sid = os.path.basename(os.path.dirname(f))
@@ -11,10 +12,12 @@ for f in sorted(glob.glob(os.path.join(V, "seeded", "*", "meta.json"))):
     if runs:
         last = runs[-1]
         res = ("caught, concrete replay" if last.get("with_replay") else "caught, no-failing-input-found") if last.get("caught") else "MISSED"
-        if len(runs) > 1 and not runs[0].get("caught") and last.get("caught"):
-            res += " (missed by the first version of the check; caught after strengthening)"
+        if last.get("caught") and (sid in first_missed or (len(runs) > 1 and not runs[0].get("caught"))):
+            res += " (MISSED by the first version of the check; caught after the generator/oracle was strengthened)"
     else:
         res = d.get("check_result", "not run yet")
+        if sid in first_missed and "MISSED" not in res:
+            res = "MISSED by the first version of the check; " + res
     summ = (d.get("summary") or "").replace("\n", " ")
     rows.append("| %s | %s | %s | %s | %s |" % (sid, d.get("property"), summ[:220], "yes" if confirmed else "no", res[:160]))
 out = ["# Seeded breaking changes", "",
